@@ -85,10 +85,14 @@ class World:
     def mt(self, k):
         return float(self.base + k)
 
-    def write(self, f, touch=False):
+    def write(self, f, touch=False, revert=False):
         k = self.ver.get(f, -1) + 1
         self.ver[f] = k
         ck = self.touch_of.get((f, k - 1), k - 1) if touch else k
+        if revert and k >= 2:
+            # the content the file had before its last change comes back (an undo in an editor, a checkout), under a newer modification time
+            touch = True
+            ck = self.touch_of[(f, k - 2)]
         self.touch_of[(f, k)] = ck if touch else k
         with open(self.path(f), 'w') as fh:
             fh.write(content(self.touch_of[(f, k)], f))
@@ -145,11 +149,37 @@ def gen_history(r, mixed):
         elif k < 0.75:
             h.append(('write', key[0]))
         elif k < 0.8 and mixed:
-            h.append(('touch', key[0]))
+            h.append((r.choice(['touch', 'revert', 'revert']), key[0]))
         elif k < 0.92:
             h.append(('drop',))
         else:
             h.append(('rmcache', key[2]))
+    return h
+
+
+def gen_history_motif(r):
+    """use - change - incremental parse - undo - incremental parse, around a garbage collection of the memory cache: the entry of a file is hit (so it
+    survives the collection), other files of the same grammar are not (so they are collected when the next entry is stored), the file changes and is
+    parsed incrementally, then gets its old content back and is parsed again; random operations in between"""
+    files = ['f0', 'f1', 'f2', 'f3']
+    g = r.choice(['3.7', '3.10'])
+    f = r.choice(files)
+    others = [x for x in files if x != f]
+    c = r.choice(['a', 'b'])
+    inc = lambda: r.choice(['diff', 'cache+diff', 'cache+diff'])
+    core = [('parse', f, g, c, 'cache', 0, 0, 0)]
+    for o in r.sample(others, r.randint(1, 3)):
+        core.append(('parse', o, g, r.choice(['a', 'b']), 'cache', 0, 0, 0))
+    core += [('parse', f, g, c, r.choice(['cache', 'cache+diff']), 0, 0, 0), ('write', f), ('parse', f, g, c, inc(), 0, 0, 0),
+             ('revert', f), ('parse', f, g, c, inc(), 0, 0, 0)]
+    if r.random() < 0.5:
+        core += [('revert', f), ('parse', f, g, c, inc(), 0, 0, 0)]
+    h = []
+    for op in core:
+        if r.random() < 0.15:
+            h.append(r.choice([('parse', r.choice(files), r.choice(['3.7', '3.10']), r.choice(['a', 'b']), r.choice(['cache', 'diff', 'nocache']), 0, 0, 0),
+                               ('touch', r.choice(files)), ('write', r.choice(others))]))
+        h.append(op)
     return h
 
 
@@ -179,6 +209,8 @@ def _run_history(h, W, obs):
             W.write(op[1])
         elif op[0] == 'touch':
             W.write(op[1], touch=True)
+        elif op[0] == 'revert':
+            W.write(op[1], revert=True)
         elif op[0] == 'drop':
             pcache.parser_cache.clear()
         elif op[0] == 'rmcache':
@@ -211,7 +243,7 @@ def project(h, key, performed):
     f, g, c = key
     ops = []
     for i, op in enumerate(h):
-        if op[0] in ('write', 'touch'):
+        if op[0] in ('write', 'touch', 'revert'):
             if op[1] == f:
                 ops.append([1])
         elif op[0] == 'drop':
@@ -286,8 +318,8 @@ def run(ctx, b, drv):
         ctx.cov['disagreements_checked'] = bad
         for i in range(800 if ctx.tier == 'quick' else 16000):
             r = gens.rng(ctx.seed, 'cache-mixed', i)
-            h = gen_history(r, mixed=True)
-            obs, W = run_history(h, root, gc_trigger=r.choice([None, 1, 2, 3]), epoch=r.random() < 0.3)
+            h = gen_history_motif(r) if r.random() < 0.25 else gen_history(r, mixed=True)
+            obs, W = run_history(h, root, gc_trigger=r.choice([None, 1, 2, 3, 4]), epoch=r.random() < 0.3)
             ctx.count('cache-mixed-histories')
             ctx.nontrivial(('cache-mixed', tuple(h)))
             check_obs(ctx, h, obs, W, 'cache-mixed', i)
